@@ -2792,6 +2792,37 @@ def check_pool_buffers_cleared(mir):
     return out
 
 
+def check_state_id_source(mir):
+    """State::new numbers render states from ONE process-wide atomic counter (a per-thread counter would hand the
+    same id to renders on different threads, and the guard in Macro::call compares nothing else)"""
+    text = function_text(mir, r'^fn state::<impl [^>]*>::new\(_1: context::Context')
+    if text is None:
+        return dict(function='State::new', verdict='unknown', conflict='State::new not found in the MIR')
+    fn = parse_function(text)
+    atomics = tls = 0
+    id_from = None
+    for blk in fn['blocks'].values():
+        if blk['cleanup']:
+            continue
+        dst, callee = call_of(blk['term'])
+        if callee and re.match(r'(?:std::sync::atomic::)?(?:Atomic[IU]\w+|Atomic::<[iu]\w+>)::fetch_add\(', callee):
+            atomics += 1
+            id_from = dst
+        if callee and re.match(r'LocalKey::<', callee):
+            tls += 1
+    s_ = z3.Solver()
+    a, t_ = z3.Ints('atomic_counters thread_local_reads')
+    s_.add(a == atomics, t_ == tls, z3.Or(a != 1, t_ != 0))
+    t0 = time.time()
+    r = s_.check()
+    res = dict(function='State::new', atomic_fetch_add_calls=atomics, thread_local_reads=tls, id_local=id_from, z3_s=round(time.time() - t0, 3))
+    if r == z3.unsat:
+        res.update(verdict='sat')
+    else:
+        res.update(verdict='unsat', conflict='State::new does not take the state id from exactly one process-wide atomic counter (%d atomic fetch_add, %d thread-local reads)' % (atomics, tls))
+    return res
+
+
 def run_pool_buffers(prop, tier, seed):
     t0 = time.time()
     ev = dict(engine='M', violations=[], known_hits=[], problems=[], coverage={})
@@ -2801,29 +2832,32 @@ def run_pool_buffers(prop, tier, seed):
         ev['problems'].append('engine M: %s' % e)
         return ev
     results = check_pool_buffers_cleared(mir)
+    results.append(check_state_id_source(mir))
     err = build_tool('vmexits')
     if err:
         ev['problems'].append('engine M: native scenario tool did not build: ' + err[-300:])
         return ev
-    scen = [s for s in run_vmexits() if s['check'] == 'pool_buffers']
-    failing = [s for s in scen if not s['ok']]
+    scen_all = [s for s in run_vmexits() if s['check'] in ('pool_buffers', 'state_ids')]
+    scen = scen_all
     for r in results:
+        failing = [s for s in scen_all if not s['ok'] and s['check'] == ('state_ids' if r['function'] == 'State::new' else 'pool_buffers')]
         if r['verdict'] == 'sat':
             continue
         if r['verdict'] != 'unsat':
             ev['problems'].append('engine M: %s: %s %s' % (r['function'], r['verdict'], r.get('conflict') or ''))
             continue
         if failing:
-            rp = os.path.join(nativelib.replay_dir(), '%s-M-pool-%s.json' % (prop, r['function']))
+            rp = os.path.join(nativelib.replay_dir(), '%s-M-pool-%s.json' % (prop, r['function'].replace('::', '_')))
             json.dump(dict(engine='M', kind='eval_impl', check='pool_buffers', property=prop, mir_finding=r, scenarios=failing,
                            how='bin/check %s --replay %s' % (prop, rp)), open(rp, 'w'), indent=1)
             ev['violations'].append(dict(replay=rp, failed=[dict(desc='%s; native scenario %s: %s' % (r['conflict'], failing[0]['scenario'], failing[0]['detail'][:240]),
-                                                                 loc='minijinja/src/compiler/codegen.rs %s (MIR)' % r['function'])]))
+                                                                 loc='minijinja/src %s (MIR)' % r['function'])]))
         else:
-            ev['problems'].append('engine M: %s, but the native recompilation scenario behaves' % r['conflict'])
+            ev['problems'].append('engine M: %s, but the native scenario behaves' % r['conflict'])
+    failing = [s for s in scen_all if not s['ok']]
     if failing and all(r['verdict'] == 'sat' for r in results):
-        ev['problems'].append('engine M: native scenario %s misbehaves (%s) although pooled buffers are cleared when taken' % (failing[0]['scenario'], failing[0]['detail'][:200]))
-    log('[%s] engine M (codegen pools): %s; %d native scenarios, %d misbehaving' % (prop, ' '.join('%s=%s' % (r['function'], r['verdict']) for r in results), len(scen), len(failing)))
+        ev['problems'].append('engine M: native scenario %s misbehaves (%s) although pooled buffers are cleared and state ids come from one atomic counter' % (failing[0]['scenario'], failing[0]['detail'][:200]))
+    log('[%s] engine M (codegen pools, state ids): %s; %d native scenarios, %d misbehaving' % (prop, ' '.join('%s=%s' % (r['function'], r['verdict']) for r in results), len(scen), len(failing)))
     ev['coverage'] = dict(queries=len(results), results=results, native_scenarios=len(scen), native_scenarios_failing=len(failing), check='pool_buffers')
     ev['wall_s'] = round(time.time() - t0, 1)
     return ev
